@@ -187,3 +187,104 @@ def task_seek_atom(prop, seed):
 def deductive_tasks(prop, tier, seed):
     return [("SystemGro._molecules_ordered_all_gen/pyvc", task_systemgro_gen, (prop, seed), 600.0),
             ("GroFile.seek_atom/pyvc", task_seek_atom, (prop, seed), 300.0)]
+
+
+# ---------------------------------------------------------------------------
+# System._molecules_ordered_all_gen (C11): blocks (species, first residue, amount) -> one (species, start, end) per molecule
+
+NBk = z3.Int("n_blocks")
+BSpec = z3.Function("block_species", z3.IntSort(), z3.IntSort())
+BStart = z3.Function("block_first_residue", z3.IntSort(), z3.IntSort())
+BAmount = z3.Function("block_amount", z3.IntSort(), z3.IntSort())
+NRes = z3.Function("species_residue_count", z3.IntSort(), z3.IntSort())
+
+
+NAt = z3.Function("species_atom_count", z3.IntSort(), z3.IntSort())
+
+
+class MolTempl:
+    def __init__(self, i):
+        self.i = i
+
+    def pyvc_len(self):
+        t = self.i if isinstance(self.i, z3.ExprRef) else seq.SymDict._key(self.i)
+        return S.SymReal(NAt(t))          # len(molecule) is its ATOM count, not its residue count
+
+    @property
+    def resnames(self):
+        t = self.i if isinstance(self.i, z3.ExprRef) else seq.SymDict._key(self.i)
+        return seq.SymSeq("resnames", NRes(t), lambda k: None)
+
+    def pyvc_copy(self):
+        return self
+
+
+def task_system_gen(prop, seed):
+    tag = f"{prop}/System._molecules_ordered_all_gen"
+    selfm = NS()
+    selfm.different_molecules = seq.SymSeq("different_molecules", z3.Int("n_species"), lambda i: MolTempl(i))
+    selfm._molecules_ordered = seq.SymSeq("_molecules_ordered", NBk, lambda k: (S.SymReal(BSpec(k)), S.SymReal(BStart(k)), S.SymReal(BAmount(k))))
+    CNT = z3.Function("molecules_before_block", z3.IntSort(), z3.IntSort())    # ghost: number of molecules yielded before block k
+
+    def props(y: seq.SymList, upto):
+        """every yielded molecule spans exactly its species' residue count; inside a block consecutive molecules abut and the first starts at the block start"""
+        r = z3.Int("r!s")
+        sp, a, b = y.arrays
+        return z3.ForAll([r], z3.Implies(z3.And(r >= 0, r < y.length), z3.Select(b, r) - z3.Select(a, r) == NRes(z3.Select(sp, r))))
+
+    def inv_outer(st, k):
+        y = st.env.get("__yielded__")
+        if not isinstance(y, seq.SymList):
+            return z3.BoolVal(False)
+        return z3.And(k >= 0, k <= NBk, y.length >= 0, props(y, k))
+
+    def inv_inner(st, j):
+        y = st.env.get("__yielded__")
+        k = st.ghost.get("outer_k")
+        if not isinstance(y, seq.SymList) or k is None:
+            return z3.BoolVal(False)
+        e = st.env
+        L = seq.SymDict._key(e["len_mol"])
+        base = st.ghost["len_at_block_start"]
+        sp, a, b = y.arrays
+        r = z3.Int("r!i")
+        return z3.And(j >= 0, L == NRes(BSpec(k)), y.length == base + j, base >= 0, props(y, k),
+                      z3.ForAll([r], z3.Implies(z3.And(r >= 0, r < j),
+                                                z3.And(z3.Select(sp, base + r) == BSpec(k), z3.Select(a, base + r) == BStart(k) + r * L,
+                                                       z3.Select(b, base + r) == BStart(k) + (r + 1) * L))))
+
+    def start_outer(interp, st, k):
+        st.ghost["outer_k"] = k
+        st.ghost["len_at_block_start"] = st.env["__yielded__"].length
+
+    loops = {0: LoopSpec(inv_outer, name="blocks-loop", on_iteration_start=start_outer), 1: LoopSpec(inv_inner, name="molecules-loop")}
+    i = z3.Int("i!k")
+    pre = [NBk >= 0, z3.ForAll([i], NRes(i) >= 1), z3.ForAll([i], z3.And(BSpec(i) >= 0, BSpec(i) < z3.Int("n_species")))]   # class invariant: blocks name loaded species
+    try:
+        it = pyvc.Interp("gaddlemaps/components/_system.py", "System._molecules_ordered_all_gen", {}, loops, tag, builtins_model={"range": seq.sym_range})
+        ends = it.run({"self": selfm, "__yielded__": _yielded()}, ghost={"outer_k": z3.IntVal(0), "len_at_block_start": z3.IntVal(0)}, pre=pre)
+    except (pyvc.PyvcUnsupported, S.SymError) as e:
+        return [ob(f"{tag}/vc-generation", "undecided", engine="pyvc", reason=f"outside the pyvc subset: {type(e).__name__}: {e}")]
+    out = [ob(f"{tag}/vc-generation", "discharged" if it.obls and ends else "undecided", engine="pyvc", backend="ast",
+              sample={"obligations": len(it.obls), "exit_paths": len(ends)})]
+    cex = {"kind": "vc", "fn": "d12:vc", "signature": "block-generator"}
+    for o in it.obls:
+        v = discharge(o.name, o.hyps, o.goal, backends=("z3",), engine="pyvc", timeout_ms=30000, seed=seed,
+                      sample={"goal": core.short(o.goal, 160), "n_hyps": len(o.hyps)})
+        if v["status"] == "refuted":
+            v["cex"] = dict(cex, obligation=o.name)
+        out.append(v)
+    for ei, e in enumerate(ends):
+        y = e.env.get("__yielded__")
+        if e.sig != pyvc.RETURN or not isinstance(y, seq.SymList):
+            continue
+        v = discharge(f"{tag}/exit{ei}/ensures.every_molecule_spans_its_species_residue_count", e.pc, props(y, NBk), backends=("z3",), engine="pyvc",
+                      timeout_ms=30000)
+        if v["status"] == "refuted":
+            v["cex"] = dict(cex, signature="span")
+        out.append(v)
+    return out
+
+
+def deductive_tasks_c11(prop, tier, seed):
+    return [("System._molecules_ordered_all_gen/pyvc", task_system_gen, (prop, seed), 600.0)]
